@@ -122,6 +122,21 @@ CLAIMED["C11"] = (
     "DESIGN.md section 6, C11",
 )
 
+CLAIMED["C06"] = (
+    "Coq theorems over all rationals: time branch (either geometry time-only): value = IoU of the prepared time extents, in "
+    "[0,1], symmetric, 0 when disjoint, 1 on self-comparison with non-zero extent, shift invariant (time stamps enter through "
+    "their closed-form buffer, which commutes with shifts when not clamped at 0); area branch for EVERY answer GEOS may give "
+    "(0 <= i <= a1+a2): in [0,1], symmetric, exactly 1 on self-comparison even if i comes back above the area, 0 for empty "
+    "intersection, = i/(a1+a2-i) under the GEOS contract i <= min(a1,a2); two boxes: rectangle areas computed in Gallina, so "
+    "range / symmetry / self / disjoint / area-IoU hold unconditionally. Correspondence recomputes the code's result from the "
+    "recorded GEOS quantities on all 81 type pairs.",
+    "Trusted: Coq kernel/vm_compute; GEOS buffer/area/intersection are inputs of the model (recorded per case by calling shapely "
+    "on the prepared shapes as the code does); the value of a general-polygon IoU is GEOS's (partial: the model proves what the "
+    "code does with it); comparisons of quotients to 1e-12, symmetry/shift to 1e-9/1e-7 (float rounding not modelled).",
+    "Rocq/Coq proof over Q + model/implementation correspondence by vm_compute with GEOS quantities as recorded inputs",
+    "DESIGN.md section 6, C06",
+)
+
 NOT_YET = {}
 
 
